@@ -223,12 +223,14 @@ def timer_check(ctx, build):
         if d['live_timers_after_stop']:
             bad = {'live_timers_after_stop_returned': d['live_timers_after_stop']}
             stats['live_after_stop'] += 1
+        elif d.get('dumps_after_stop_returned'):
+            bad = {'periodic_dumps_written_after_stop_returned': d['dumps_after_stop_returned']}
         elif d['errors']:
             bad = {'exception_in_thread': d['errors']}
         elif not d['settled']:
             bad = {'threads_did_not_finish': True}
         if bad:
-            ctx.fail('with -i: after stop() returned a timer is still live (kernprof would rewrite the file forever and never terminate)',
+            ctx.fail('with -i: after stop() returned a timer is still live (kernprof would never terminate) or a periodic dump is still written (over the final statistics)',
                      {'finding_class': None, 'schedule': r['schedule'], 'difference': bad, 'states': r['states'][-4:]})
     if model_ok:
         chunks = [results[i::8] for i in range(8)]
